@@ -21,6 +21,13 @@ struct Recv {
     stream: &'static str,
 }
 
+impl Recv {
+    /// a receiver that already is a trait object cannot be coerced to another `dyn`
+    fn dyn_ok(&self) -> bool {
+        !matches!(self.ty, tast::Ty::TDyn { .. })
+    }
+}
+
 fn receivers() -> Vec<Recv> {
     use tast::Ty::*;
     let st = |n: &str| TStruct { name: n.to_string() };
@@ -106,6 +113,16 @@ fn receivers() -> Vec<Recv> {
             nominal: None,
             stream: "main",
         },
+        // a trait implemented FOR a trait-object type: `impl Tr for dyn Base`, receiver `x: dyn Base`
+        // (Base has its own methods `m`/`other`/… of the same names: a by-name vtable lookup would find them)
+        Recv {
+            label: "dyn_of_other_trait",
+            ty_text: "dyn Base",
+            value: "Pq { a: 1 }",
+            ty: TDyn { trait_name: "Base".to_string() },
+            nominal: None,
+            stream: "main",
+        },
         // receivers that are instances of generic types: separate stream (known finding lives here)
         Recv {
             label: "generic_enum_instance",
@@ -134,6 +151,13 @@ fn program(r: &Recv, tr: &str, m: &str) -> String {
     let mut s = String::new();
     s.push_str("struct Pq { a: int32 }\nstruct pq { a: int32 }\nstruct A_b { a: int32 }\nenum Ee { Aa, Bb(int32) }\nenum E_e { Cc, Dd }\nenum Opt[T] { Yes(T), Non }\nstruct Pair[L, R] { l: L, r: R }\n");
     let _ = writeln!(s, "trait {} {{ fn {}(Self, int32) -> int32; fn other(Self) -> string; }}", tr, m);
+    // `Base` declares methods of the same names and signatures and is implemented for Pq
+    let _ = writeln!(s, "trait Base {{ fn {}(Self, int32) -> int32; fn other(Self) -> string; }}", m);
+    let _ = writeln!(
+        s,
+        "impl Base for Pq {{ fn {m}(self: Pq, k: int32) -> int32 {{ k + 100 }} fn other(self: Pq) -> string {{ \"base\" }} }}",
+        m = m
+    );
     let _ = writeln!(
         s,
         "impl {tr} for {t} {{ fn {m}(self: {t}, k: int32) -> int32 {{ k + 1 }} fn other(self: {t}) -> string {{ \"x\" }} }}",
@@ -154,9 +178,11 @@ fn program(r: &Recv, tr: &str, m: &str) -> String {
     let _ = writeln!(s, "fn via[T: {tr}](x: T, k: int32) -> int32 {{ {tr}::{m}(x, k) }}", tr = tr, m = m);
     let _ = writeln!(s, "fn f_static(x: {t}) -> int32 {{ {tr}::{m}(x, 1) }}", t = r.ty_text, tr = tr, m = m);
     let _ = writeln!(s, "fn f_bound(x: {t}) -> int32 {{ via(x, 1) }}", t = r.ty_text);
-    let _ = writeln!(s, "fn f_dyn(x: {t}) -> int32 {{ let d: dyn {tr} = x; {tr}::{m}(d, 1) }}", t = r.ty_text, tr = tr, m = m);
+    if r.dyn_ok() {
+        let _ = writeln!(s, "fn f_dyn(x: {t}) -> int32 {{ let d: dyn {tr} = x; {tr}::{m}(d, 1) }}", t = r.ty_text, tr = tr, m = m);
+    }
     let _ = writeln!(s, "fn f_other(y: {t}) -> int32 {{ {tr}::{m}(y, 1) + via(y, 1) }}", t = oty, tr = tr, m = m);
-    let mut sum = String::from("f_static(x) + f_bound(x) + f_dyn(x) + f_other(o)");
+    let mut sum = String::from(if r.dyn_ok() { "f_static(x) + f_bound(x) + f_dyn(x) + f_other(o)" } else { "f_static(x) + f_bound(x) + f_other(o)" });
     if let Some(n) = r.nominal {
         let _ = writeln!(s, "fn f_dot(x: {t}) -> int32 {{ x.im(1) }}", t = r.ty_text);
         let _ = writeln!(s, "fn f_path(x: {t}) -> int32 {{ {n}::im(x, 1) }}", t = r.ty_text, n = n);
@@ -241,6 +267,48 @@ fn main() -> unit { let d: dyn Tr = 5; string_println(int32_to_string(Tr::m(d)))
 trait Tr { fn m(Self) -> int32; }
 impl Tr for Opt[string] { fn m(self: Opt[string]) -> int32 { 1 } }
 fn main() -> unit { let o: Opt[int32] = Opt::Yes(1); let d: dyn Tr = o; string_println(int32_to_string(Tr::m(d))) }
+"#),
+    ("ufcs-other-trait-on-dyn-same-signature", "No instance found", r#"struct Dog { age: int32 }
+trait Loud { fn name(Self) -> string; }
+trait Quiet { fn name(Self) -> string; }
+impl Loud for Dog { fn name(self: Dog) -> string { "LOUD" } }
+impl Quiet for Dog { fn name(self: Dog) -> string { "quiet" } }
+fn main() -> unit { let d: dyn Loud = Dog { age: 1 }; string_println(Quiet::name(d)) }
+"#),
+    ("ufcs-other-trait-on-dyn-different-signature", "No instance found", r#"struct Dog { age: int32 }
+trait Loud { fn name(Self, int32) -> string; }
+trait Quiet { fn name(Self) -> string; }
+impl Loud for Dog { fn name(self: Dog, k: int32) -> string { "LOUD" } }
+impl Quiet for Dog { fn name(self: Dog) -> string { "quiet" } }
+fn main() -> unit { let d: dyn Loud = Dog { age: 1 }; string_println(Quiet::name(d)) }
+"#),
+    ("ufcs-other-trait-on-dyn-effect-statement", "No instance found", r#"struct Dog { age: int32 }
+trait Loud { fn poke(Self) -> unit; }
+trait Quiet { fn poke(Self) -> unit; }
+impl Loud for Dog { fn poke(self: Dog) -> unit { string_println("LOUD") } }
+impl Quiet for Dog { fn poke(self: Dog) -> unit { string_println("quiet") } }
+fn main() -> unit { let d: dyn Loud = Dog { age: 1 }; let i = ref(0); while ref_get(i) < 2 { ref_set(i, ref_get(i) + 1); Quiet::poke(d) } }
+"#),
+    ("ufcs-other-trait-on-dyn-no-such-method-in-vtable", "No instance found", r#"struct Dog { age: int32 }
+trait Loud { fn bark(Self) -> string; }
+trait Quiet { fn name(Self) -> string; }
+impl Loud for Dog { fn bark(self: Dog) -> string { "LOUD" } }
+impl Quiet for Dog { fn name(self: Dog) -> string { "quiet" } }
+fn main() -> unit { let d: dyn Loud = Dog { age: 1 }; string_println(Quiet::name(d)) }
+"#),
+    ("dyn-of-dyn-without-impl", "", r#"struct Dog { age: int32 }
+trait Loud { fn name(Self) -> string; }
+trait Quiet { fn name(Self) -> string; }
+impl Loud for Dog { fn name(self: Dog) -> string { "LOUD" } }
+impl Quiet for Dog { fn name(self: Dog) -> string { "quiet" } }
+fn main() -> unit { let d: dyn Loud = Dog { age: 1 }; let q: dyn Quiet = d; string_println(Quiet::name(q)) }
+"#),
+    ("dot-call-of-trait-method-on-dyn-two-traits", "", r#"struct Dog { age: int32 }
+trait Loud { fn name(Self) -> string; }
+trait Quiet { fn name(Self) -> string; }
+impl Loud for Dog { fn name(self: Dog) -> string { "LOUD" } }
+impl Quiet for dyn Loud { fn name(self: dyn Loud) -> string { "hushed" } }
+fn main() -> unit { let d: dyn Loud = Dog { age: 1 }; string_println(d.name()) }
 "#),
     ("dyn-from-type-parameter", "non-concrete", r#"trait Tr { fn m(Self) -> int32; }
 impl Tr for int32 { fn m(self: int32) -> int32 { 1 } }
@@ -337,6 +405,269 @@ fn main() -> unit { let o: Opt[int32] = Opt::Yes(1); let s: Opt[string] = Opt::N
     ),
 ];
 
+
+// ------------------------------------------------------------------ effect / result family (`gv c17sem`)
+//
+// One program per (receiver, position, call form): the programs of one (receiver, position) differ
+// ONLY in the form of the method call, so whatever they print and return must be identical.  The
+// real Go AST of each is evaluated under Go.Sem (and the surface program under SrcSem) by
+// tools/props/c17.py through tools/props/c01.py `collect`/`evaluate`.
+
+struct SemRecv {
+    label: &'static str,
+    ty_text: &'static str,
+    /// items: type, impl of Tick (bodies shared with the inherent impl when there is one)
+    items: &'static str,
+    /// statements that bind `r` to a fresh receiver
+    mk: &'static str,
+    /// inherent methods `itick`/`ibump`/`itotal` exist (local nominal type), callable as `Name::…`
+    nominal: Option<&'static str>,
+    dyn_ok: bool,
+}
+
+const TICK_TRAIT: &str = "trait Tick { fn tick(Self) -> unit; fn bump(Self, int32) -> int32; fn total(Self) -> int32; }\n";
+
+fn sem_receivers() -> Vec<SemRecv> {
+    vec![
+        SemRecv {
+            label: "struct_ref",
+            ty_text: "Counter",
+            items: r#"struct Counter { cell: Ref[int32] }
+impl Tick for Counter {
+  fn tick(self: Counter) -> unit { let _ = string_println("tick " + int32_to_string(ref_get(self.cell))); ref_set(self.cell, ref_get(self.cell) + 1) }
+  fn bump(self: Counter, k: int32) -> int32 { let _ = string_println("bump " + int32_to_string(k)); let _ = ref_set(self.cell, ref_get(self.cell) + k); ref_get(self.cell) }
+  fn total(self: Counter) -> int32 { ref_get(self.cell) }
+}
+impl Counter {
+  fn itick(self: Counter) -> unit { let _ = string_println("tick " + int32_to_string(ref_get(self.cell))); ref_set(self.cell, ref_get(self.cell) + 1) }
+  fn ibump(self: Counter, k: int32) -> int32 { let _ = string_println("bump " + int32_to_string(k)); let _ = ref_set(self.cell, ref_get(self.cell) + k); ref_get(self.cell) }
+  fn itotal(self: Counter) -> int32 { ref_get(self.cell) }
+}
+"#,
+            mk: "let r = Counter { cell: ref(0) };",
+            nominal: Some("Counter"),
+            dyn_ok: true,
+        },
+        SemRecv {
+            label: "int32",
+            ty_text: "int32",
+            items: r#"impl Tick for int32 {
+  fn tick(self: int32) -> unit { string_println("int tick " + int32_to_string(self)) }
+  fn bump(self: int32, k: int32) -> int32 { let _ = string_println("int bump " + int32_to_string(k)); self + k }
+  fn total(self: int32) -> int32 { self }
+}
+"#,
+            mk: "let r = 40;",
+            nominal: None,
+            dyn_ok: true,
+        },
+        SemRecv {
+            label: "enum_ref",
+            ty_text: "Sw",
+            items: r#"enum Sw { On(Ref[int32]), Off }
+impl Tick for Sw {
+  fn tick(self: Sw) -> unit { match self { Sw::On(c) => { let _ = string_println("on " + int32_to_string(ref_get(c))); ref_set(c, ref_get(c) + 2) }, Sw::Off => string_println("off"), } }
+  fn bump(self: Sw, k: int32) -> int32 { match self { Sw::On(c) => { let _ = ref_set(c, ref_get(c) + k); ref_get(c) }, Sw::Off => k, } }
+  fn total(self: Sw) -> int32 { match self { Sw::On(c) => ref_get(c), Sw::Off => 0, } }
+}
+impl Sw {
+  fn itick(self: Sw) -> unit { match self { Sw::On(c) => { let _ = string_println("on " + int32_to_string(ref_get(c))); ref_set(c, ref_get(c) + 2) }, Sw::Off => string_println("off"), } }
+  fn ibump(self: Sw, k: int32) -> int32 { match self { Sw::On(c) => { let _ = ref_set(c, ref_get(c) + k); ref_get(c) }, Sw::Off => k, } }
+  fn itotal(self: Sw) -> int32 { match self { Sw::On(c) => ref_get(c), Sw::Off => 0, } }
+}
+"#,
+            mk: "let r = Sw::On(ref(5));",
+            nominal: Some("Sw"),
+            dyn_ok: true,
+        },
+        // Tick implemented FOR `dyn Base`; Base's methods have other names
+        SemRecv {
+            label: "dyn_base_other_names",
+            ty_text: "dyn Base",
+            items: r#"struct Counter { cell: Ref[int32] }
+trait Base { fn get(Self) -> int32; fn inc(Self, int32) -> unit; }
+impl Base for Counter {
+  fn get(self: Counter) -> int32 { ref_get(self.cell) }
+  fn inc(self: Counter, k: int32) -> unit { ref_set(self.cell, ref_get(self.cell) + k) }
+}
+impl Tick for dyn Base {
+  fn tick(self: dyn Base) -> unit { let _ = string_println("dyn tick " + int32_to_string(Base::get(self))); Base::inc(self, 1) }
+  fn bump(self: dyn Base, k: int32) -> int32 { let _ = string_println("dyn bump " + int32_to_string(k)); Base::inc(self, k); Base::get(self) }
+  fn total(self: dyn Base) -> int32 { Base::get(self) }
+}
+"#,
+            mk: "let c0 = Counter { cell: ref(0) }; let r: dyn Base = c0;",
+            nominal: None,
+            dyn_ok: false,
+        },
+        // Tick implemented FOR `dyn Loud`, and Loud declares tick/bump/total with the SAME signatures
+        SemRecv {
+            label: "dyn_loud_same_signatures",
+            ty_text: "dyn Loud",
+            items: r#"struct Counter { cell: Ref[int32] }
+trait Loud { fn tick(Self) -> unit; fn bump(Self, int32) -> int32; fn total(Self) -> int32; }
+impl Loud for Counter {
+  fn tick(self: Counter) -> unit { let _ = string_println("LOUD tick " + int32_to_string(ref_get(self.cell))); ref_set(self.cell, ref_get(self.cell) + 10) }
+  fn bump(self: Counter, k: int32) -> int32 { let _ = string_println("LOUD bump"); let _ = ref_set(self.cell, ref_get(self.cell) + 10 * k); ref_get(self.cell) }
+  fn total(self: Counter) -> int32 { 1000 + ref_get(self.cell) }
+}
+impl Tick for dyn Loud {
+  fn tick(self: dyn Loud) -> unit { let _ = string_println("hushed tick"); Loud::tick(self) }
+  fn bump(self: dyn Loud, k: int32) -> int32 { let _ = string_println("hushed bump"); Loud::bump(self, k) + 1 }
+  fn total(self: dyn Loud) -> int32 { Loud::total(self) - 1000 }
+}
+"#,
+            mk: "let c0 = Counter { cell: ref(0) }; let r: dyn Loud = c0;",
+            nominal: None,
+            dyn_ok: false,
+        },
+        // … and with DIFFERENT signatures for the equally named methods
+        SemRecv {
+            label: "dyn_loud_different_signatures",
+            ty_text: "dyn Loud",
+            items: r#"struct Counter { cell: Ref[int32] }
+trait Loud { fn tick(Self, int32) -> int32; fn bump(Self) -> unit; fn total(Self, string) -> string; }
+impl Loud for Counter {
+  fn tick(self: Counter, k: int32) -> int32 { let _ = string_println("LOUD tick"); let _ = ref_set(self.cell, ref_get(self.cell) + k); ref_get(self.cell) }
+  fn bump(self: Counter) -> unit { string_println("LOUD bump") }
+  fn total(self: Counter, s: string) -> string { s + int32_to_string(ref_get(self.cell)) }
+}
+impl Tick for dyn Loud {
+  fn tick(self: dyn Loud) -> unit { let _ = string_println("hushed tick"); let _ = Loud::tick(self, 1); () }
+  fn bump(self: dyn Loud, k: int32) -> int32 { let _ = Loud::bump(self); Loud::tick(self, k) }
+  fn total(self: dyn Loud) -> int32 { string_len(Loud::total(self, "n=")) }
+}
+"#,
+            mk: "let c0 = Counter { cell: ref(0) }; let r: dyn Loud = c0;",
+            nominal: None,
+            dyn_ok: false,
+        },
+    ]
+}
+
+/// (position, result type of `run`, body with @TICK@ / @BUMP1@.. / @TOTAL@)
+const POSITIONS: &[(&str, &str, &str)] = &[
+    ("value", "int32", "let u: unit = @TICK@; let _ = string_println(\"after\"); let w: unit = u; @TOTAL@"),
+    ("statement", "int32", "@TICK@; let _ = string_println(\"mid\"); @TICK@; @TOTAL@"),
+    ("discarded-let", "int32", "let _ = @TICK@; let _ = @TICK@; @TOTAL@"),
+    ("argument", "int32", "let k = consume(@TICK@); @TOTAL@ + k"),
+    ("loop-tail", "int32", "let i = ref(0); while ref_get(i) < n { ref_set(i, ref_get(i) + 1); @TICK@ }; @TOTAL@"),
+    ("loop-statement", "int32", "let i = ref(0); while ref_get(i) < n { @TICK@; ref_set(i, ref_get(i) + 1) }; @TOTAL@"),
+    ("loop-only", "int32", "let i = ref(0); while ref_get(i) < n { let _ = ref_set(i, ref_get(i) + 1); @TICK@ }; @TOTAL@"),
+    ("loop-branch-tail", "int32", "let i = ref(0); while ref_get(i) < n { ref_set(i, ref_get(i) + 1); if ref_get(i) > 1 { @TICK@ } else { () } }; @TOTAL@"),
+    ("loop-match-arm", "int32", "let i = ref(0); while ref_get(i) < n { ref_set(i, ref_get(i) + 1); match ref_get(i) { 2 => @TICK@, _ => (), } }; @TOTAL@"),
+    ("nested-loop-tail", "int32", "let i = ref(0); while ref_get(i) < n { ref_set(i, ref_get(i) + 1); let j = ref(0); while ref_get(j) < 2 { ref_set(j, ref_get(j) + 1); @TICK@ } }; @TOTAL@"),
+    ("branch-tail", "int32", "if n > 1 { @TICK@ } else { () }; if n > 5 { () } else { @TICK@ }; @TOTAL@"),
+    ("match-arm", "int32", "match n { 3 => @TICK@, _ => (), }; match n { 4 => (), _ => @TICK@, }; @TOTAL@"),
+    ("fn-tail", "unit", "let _ = string_println(\"pre\"); @TICK@"),
+    ("fn-branch-tail", "unit", "if n > 1 { @TICK@ } else { () }"),
+    ("fn-match-tail", "unit", "match n { 3 => @TICK@, _ => (), }"),
+    ("fn-block-tail", "unit", "let _ = string_println(\"pre\"); if n > 0 { @TICK@; @TICK@ } else { () }"),
+    ("result-value", "int32", "let a = @BUMP1@; let b = @BUMP2@ + @BUMP3@; a * 100 + b + @TOTAL@"),
+    ("result-discarded", "int32", "let _ = @BUMP1@; @BUMP2@; let i = ref(0); while ref_get(i) < n { ref_set(i, ref_get(i) + 1); let _ = @BUMP1@; () }; @TOTAL@"),
+    ("result-loop-condition", "int32", "while @BUMP1@ < n + 2 { () }; @TOTAL@"),
+    ("result-branch-condition", "int32", "if @BUMP2@ > 1 { @BUMP1@ } else { @BUMP3@ }"),
+    ("result-argument", "int32", "add3(@BUMP1@, @BUMP2@, @TOTAL@)"),
+];
+
+struct Form {
+    id: &'static str,
+    generic: bool,
+    tick: &'static str,
+    bump: &'static str,
+    total: &'static str,
+    /// the receiver parameter is `dyn Tick`
+    dyn_param: bool,
+    inherent: u8, // 0 trait, 1 dot, 2 path
+}
+
+const FORMS: &[Form] = &[
+    Form { id: "static", generic: false, tick: "Tick::tick(x)", bump: "Tick::bump(x, @K@)", total: "Tick::total(x)", dyn_param: false, inherent: 0 },
+    Form { id: "bound", generic: true, tick: "Tick::tick(x)", bump: "Tick::bump(x, @K@)", total: "Tick::total(x)", dyn_param: false, inherent: 0 },
+    Form { id: "bound-dot", generic: true, tick: "x.tick()", bump: "x.bump(@K@)", total: "x.total()", dyn_param: false, inherent: 0 },
+    Form { id: "dyn", generic: false, tick: "Tick::tick(x)", bump: "Tick::bump(x, @K@)", total: "Tick::total(x)", dyn_param: true, inherent: 0 },
+    Form { id: "inherent-dot", generic: false, tick: "x.itick()", bump: "x.ibump(@K@)", total: "x.itotal()", dyn_param: false, inherent: 1 },
+    Form { id: "inherent-path", generic: false, tick: "@N@::itick(x)", bump: "@N@::ibump(x, @K@)", total: "@N@::itotal(x)", dyn_param: false, inherent: 2 },
+];
+
+fn sem_program(r: &SemRecv, pos: &(&str, &str, &str), f: &Form) -> Option<String> {
+    if f.dyn_param && !r.dyn_ok {
+        return None;
+    }
+    if f.inherent > 0 && r.nominal.is_none() {
+        return None;
+    }
+    let n = r.nominal.unwrap_or("");
+    let sub = |t: &str, k: &str| t.replace("@K@", k).replace("@N@", n);
+    let body = pos
+        .2
+        .replace("@TICK@", &sub(f.tick, "0"))
+        .replace("@BUMP1@", &sub(f.bump, "1"))
+        .replace("@BUMP2@", &sub(f.bump, "2"))
+        .replace("@BUMP3@", &sub(f.bump, "3"))
+        .replace("@TOTAL@", &sub(f.total, "0"));
+    let mut s = String::new();
+    s.push_str(TICK_TRAIT);
+    s.push_str(r.items);
+    s.push_str("fn consume(u: unit) -> int32 { 1 }\nfn add3(a: int32, b: int32, c: int32) -> int32 { a * 10000 + b * 100 + c }\n");
+    let pty = if f.dyn_param { "dyn Tick" } else if f.generic { "T" } else { r.ty_text };
+    let _ = writeln!(s, "fn run{}(x: {}, n: int32) -> {} {{ {} }}", if f.generic { "[T: Tick]" } else { "" }, pty, pos.1, body);
+    let arg = if f.dyn_param { "d" } else { "r" };
+    let _ = writeln!(s, "fn main() -> unit {{");
+    let _ = writeln!(s, "  {}", r.mk);
+    if f.dyn_param {
+        let _ = writeln!(s, "  let d: dyn Tick = r;");
+    }
+    if pos.1 == "unit" {
+        let _ = writeln!(s, "  let _ = run({}, 3);", arg);
+    } else {
+        let _ = writeln!(s, "  let v = run({}, 3);\n  let _ = string_println(\"result \" + int32_to_string(v));", arg);
+    }
+    let _ = writeln!(s, "  string_println(\"total \" + int32_to_string(Tick::total(r)))\n}}");
+    Some(s)
+}
+
+pub fn main_sem(args: &util::Args) {
+    util::quiet_panics();
+    let _ = std::fs::create_dir_all(&args.out);
+    let dir = util::scratch_dir("c17sem");
+    let mut out = String::new();
+    let mut n = 0usize;
+    // the seed rotates which receivers get the full position list in the quick tier
+    let recvs = sem_receivers();
+    for (ri, r) in recvs.iter().enumerate() {
+        for (pi, pos) in POSITIONS.iter().enumerate() {
+            let full = args.tier == "thorough" || r.label == "struct_ref" || (ri + pi + args.seed as usize) % 2 == 0 || !r.dyn_ok;
+            if !full {
+                continue;
+            }
+            for f in FORMS {
+                let Some(src) = sem_program(r, pos, f) else { continue };
+                let id = format!("sem/{}/{}/{}", r.label, pos.0, f.id);
+                n += 1;
+                match util::compile_text(&dir, &src) {
+                    Outcome::Ok(c) => {
+                        let _ = writeln!(out, "{}\tEXPECT\tnone\t", id);
+                        let _ = writeln!(out, "{}\tSRC\t{}", id, esc_line(&src));
+                        crate::c01::dump_src(&id, &dir.join("main.gom"), &src, &mut out);
+                        let _ = writeln!(out, "{}\tSTAGE\tgo\t{}", id, crate::godump::gfile(&c.go).to_text());
+                    }
+                    Outcome::Err(stage, msgs) => {
+                        let _ = writeln!(out, "{}\tREJECT\t{}\t{}\t{}", id, stage, esc_line(&msgs.join(" | ")), esc_line(&src));
+                    }
+                    Outcome::Panic(m) => {
+                        let _ = writeln!(out, "{}\tPANIC\t{}\t{}", id, esc_line(&m), esc_line(&src));
+                    }
+                }
+            }
+        }
+    }
+    let _ = std::fs::remove_dir_all(&dir);
+    let _ = writeln!(out, "#FEATS\treceivers={} positions={} forms={} programs={}", recvs.len(), POSITIONS.len(), FORMS.len(), n);
+    std::fs::write(args.out.join("c17sem.cases.tsv"), out).expect("write");
+    println!("c17sem programs={}", n);
+}
+
 pub fn main(args: &util::Args) {
     util::quiet_panics();
     let _ = std::fs::create_dir_all(&args.out);
@@ -384,7 +715,11 @@ pub fn main(args: &util::Args) {
                 tr,
                 m,
                 ty_sexp(&r.ty).to_text(),
-                if r.nominal.is_some() { "nominal" } else { "-" },
+                match (r.nominal.is_some(), r.dyn_ok()) {
+                    (true, _) => "nominal",
+                    (false, true) => "-",
+                    (false, false) => "nodyn",
+                },
                 esc_line(&oc),
                 obs.to_text(),
                 esc_line(&src)
